@@ -101,6 +101,55 @@ func ruleValidCoupling(p *Prog, r *Report) {
 				okRet = false
 			}
 		})
+		// no return of encoded bytes can bypass the validity switch: the block testing xmlCheckIsValid dominates every such return
+		var optBlocks []*ssa.BasicBlock
+		for _, b := range fn.Blocks {
+			if ifi, ok := b.Instrs[len(b.Instrs)-1].(*ssa.If); ok {
+				if globalOf(normGuard(guard{ifi.Cond, true}).Cond) == flag {
+					optBlocks = append(optBlocks, b)
+				}
+			}
+		}
+		bypass := ""
+		isOpt := map[*ssa.BasicBlock]bool{}
+		for _, ob := range optBlocks {
+			isOpt[ob] = true
+		}
+		// forward search from the entry that neither enters the option test nor follows an edge on which an error is known non-nil
+		seenB := map[*ssa.BasicBlock]bool{}
+		workB := []*ssa.BasicBlock{fn.Blocks[0]}
+		for len(workB) > 0 {
+			b := workB[len(workB)-1]
+			workB = workB[:len(workB)-1]
+			if seenB[b] || isOpt[b] {
+				continue
+			}
+			seenB[b] = true
+			for _, in := range b.Instrs {
+				if ret, ok := in.(*ssa.Return); ok && !isNilConst(ret.Results[0]) && fromAcc(ret.Results[0]) {
+					bypass = p.Pos(ret.Pos())
+				}
+			}
+			for si, sb := range b.Succs {
+				if ifi, ok := b.Instrs[len(b.Instrs)-1].(*ssa.If); ok {
+					ng := normGuard(guard{ifi.Cond, si == 0})
+					if bo, ok := ng.Cond.(*ssa.BinOp); ok && (bo.Op == token.EQL || bo.Op == token.NEQ) && isErrorType(bo.X.Type()) {
+						if isNilConst(bo.Y) || isNilConst(bo.X) {
+							nonNil := (bo.Op == token.NEQ) == ng.Pol
+							if nonNil {
+								continue // encoding failed on this edge: nothing to validate
+							}
+						}
+					}
+				}
+				workB = append(workB, sb)
+			}
+		}
+		if bypass == "" {
+			r.OK(rule, n, "no return bypasses the validity switch", p.Pos(fn.Pos()), "the xmlCheckIsValid test dominates every return of encoded bytes")
+		} else {
+			r.Bad(rule, n, "no return bypasses the validity switch", bypass, "encoded bytes are returned on a path that never reaches the xmlCheckIsValid test: invalid XML is returned without an error on that path")
+		}
 		if okRet {
 			r.OK(rule, n, "returned bytes are the accumulator's", p.Pos(fn.Pos()), "")
 		} else {
@@ -662,4 +711,422 @@ func exemptKeyGuard(cz *canonizer, blk *ssa.BasicBlock) bool {
 		}
 	}
 	return false
+}
+
+// ---- SEQ.cover (C01): every non-list child gets its sequence number under IncludeTagSeqNum -------------------------
+
+// ruleSeqCover: in the Map decoder, on every path through the IncludeTagSeqNum block that does NOT pass a "_seq" map
+// write, the child value can only be nil or a list (the documented no-op) — decided with the dynamic type sets on the edges.
+func ruleSeqCover(p *Prog, r *Report) {
+	const rule = "SEQ.cover"
+	fn := p.Fn("mxj.xmlToMapParser")
+	g := p.Globals["mxj.includeTagSeqNum"]
+	if fn == nil || g == nil {
+		r.Anchor(rule, "mxj.xmlToMapParser")
+		return
+	}
+	n := p.Name(fn)
+	tf := p.typeFlowOf(fn)
+	// the branch on the option
+	var optBlk *ssa.BasicBlock
+	for _, b := range fn.Blocks {
+		if ifi, ok := b.Instrs[len(b.Instrs)-1].(*ssa.If); ok && globalOf(normGuard(guard{ifi.Cond, true}).Cond) == g {
+			optBlk = b
+		}
+	}
+	if optBlk == nil {
+		r.Bad(rule, n, "sequence numbers under the option", p.Pos(fn.Pos()), "no branch on includeTagSeqNum")
+		return
+	}
+	ifi := optBlk.Instrs[len(optBlk.Instrs)-1].(*ssa.If)
+	ng := normGuard(guard{ifi.Cond, true})
+	onIdx := 0
+	if !ng.Pol {
+		onIdx = 1
+	}
+	start, join := optBlk.Succs[onIdx], optBlk.Succs[1-onIdx]
+	// blocks with a "_seq" write
+	seqBlk := map[*ssa.BasicBlock]bool{}
+	var val ssa.Value
+	eachInstr(fn, func(b *ssa.BasicBlock, in ssa.Instruction) {
+		if mu, ok := in.(*ssa.MapUpdate); ok {
+			if s, ok := constString(mu.Key); ok && s == "_seq" {
+				seqBlk[b] = true
+			}
+		}
+	})
+	// the switched value: operand of the first comma-ok assertion in the region
+	for _, in := range start.Instrs {
+		if ta, ok := in.(*ssa.TypeAssert); ok && ta.CommaOk {
+			val = ta.X
+			break
+		}
+	}
+	if val == nil || len(seqBlk) == 0 {
+		r.Unknown(rule, n, "sequence numbers under the option", p.Pos(ifi.Pos()), "type switch on the child value or the _seq writes not found")
+		return
+	}
+	// walk from start to the join avoiding _seq blocks; every edge that reaches the join must carry only nil or list values
+	bad := ""
+	seen := map[*ssa.BasicBlock]bool{}
+	work := []*ssa.BasicBlock{start}
+	for len(work) > 0 {
+		b := work[len(work)-1]
+		work = work[:len(work)-1]
+		if seen[b] || seqBlk[b] {
+			continue
+		}
+		seen[b] = true
+		for si, s := range b.Succs {
+			if s == join {
+				// predecessor slot of b in join for this successor index
+				slot := -1
+				cnt := 0
+				for k, pr := range join.Preds {
+					if pr == b {
+						if cnt == predOrdinal(b, si) {
+							slot = k
+						}
+						cnt++
+					}
+				}
+				ts := tf.setOnEdge(val, b, join, slot)
+				okSet := !ts.neg
+				if okSet {
+					for t := range ts.ts {
+						if t != "nil" && t != "[]interface{}" {
+							okSet = false
+						}
+					}
+				}
+				if !okSet {
+					bad = fmt.Sprintf("the edge from block %d (%s) skips the _seq injection with a child value of type set %s", b.Index, p.Pos(firstPos(b)), ts.String())
+				}
+				continue
+			}
+			work = append(work, s)
+		}
+	}
+	if bad == "" {
+		r.OK(rule, n, "sequence numbers under the option", p.Pos(ifi.Pos()), "every path that skips the _seq write carries only a nil or list child (the documented no-op)")
+	} else {
+		r.Bad(rule, n, "sequence numbers under the option", p.Pos(ifi.Pos()), bad+": such children get no sequence number and later siblings are misnumbered")
+	}
+}
+
+// ---- TABLE.castparsers (C14/C01): each cast option guards its documented parser(s) --------------------------------------
+
+func ruleCastParsers(p *Prog, r *Report) {
+	const rule = "TABLE.castparsers"
+	fn := p.Fn("mxj.cast")
+	if fn == nil {
+		r.Anchor(rule, "mxj.cast")
+		return
+	}
+	want := map[string][]string{
+		"mxj.castToInt":   {"strconv.ParseInt", "strconv.ParseUint"},
+		"mxj.castToFloat": {"strconv.ParseFloat"},
+		"mxj.castToBool":  {"strconv.ParseBool"},
+	}
+	for vn, parsers := range want {
+		g := p.Globals[vn]
+		if g == nil {
+			r.Anchor(rule, vn)
+			continue
+		}
+		for _, ps := range parsers {
+			found := false
+			eachInstr(fn, func(b *ssa.BasicBlock, in ssa.Instruction) {
+				c, ok := in.(*ssa.Call)
+				if !ok || !isCallTo(&c.Call, ps) || c.Call.Args[0] != ssa.Value(fn.Params[0]) {
+					return
+				}
+				for _, gd := range dominatingGuards(b) {
+					ng := normGuard(gd)
+					if globalOf(ng.Cond) == g && ng.Pol {
+						found = true
+					}
+				}
+			})
+			cons := vn + " enables " + ps
+			if found {
+				r.OK(rule, "mxj.cast", cons, p.Pos(fn.Pos()), "the parser is applied to the input under the option")
+			} else {
+				r.Bad(rule, "mxj.cast", cons, p.Pos(fn.Pos()), "documented: int64 or uint64 / float64 / bool — the option does not guard a call of "+ps+" on the input")
+			}
+		}
+	}
+}
+
+// ---- JSON.decoder (C06): every decode of NewMapJson goes through the decoder that honours JsonUseNumber ------------------
+
+func ruleJsonDecoder(p *Prog, r *Report) {
+	const rule = "JSON.decoder"
+	fn := p.Fn("mxj.NewMapJson")
+	g := p.Globals["mxj.JsonUseNumber"]
+	if fn == nil || g == nil {
+		r.Anchor(rule, "mxj.NewMapJson")
+		return
+	}
+	reach := p.Reach(fn)
+	nDec := 0
+	for f := range reach {
+		if !p.InModule(f) {
+			continue
+		}
+		eachInstr(f, func(b *ssa.BasicBlock, in ssa.Instruction) {
+			c, ok := in.(*ssa.Call)
+			if !ok {
+				return
+			}
+			if isCallTo(&c.Call, "encoding/json.Unmarshal") {
+				nDec++
+				r.Bad(rule, p.Name(f), "decode through the configured decoder", p.Pos(c.Pos()), "json.Unmarshal bypasses the decoder on which UseNumber is applied: with JsonUseNumber numbers lose their exact text on this path")
+				return
+			}
+			if !isCallTo(&c.Call, "(*encoding/json.Decoder).Decode") {
+				return
+			}
+			nDec++
+			// a UseNumber call on the same decoder under JsonUseNumber must precede (its block, or the option's join, dominates)
+			dec := c.Call.Args[0]
+			ok2 := false
+			eachInstr(f, func(b2 *ssa.BasicBlock, i2 ssa.Instruction) {
+				u, isC := i2.(ssa.CallInstruction)
+				if !isC || !isCallTo(u.Common(), "(*encoding/json.Decoder).UseNumber") || u.Common().Args[0] != dec {
+					return
+				}
+				// under the option, and on every path to the Decode the option test was passed
+				for _, gd := range dominatingGuards(b2) {
+					ng := normGuard(gd)
+					if globalOf(ng.Cond) == g && ng.Pol {
+						// the block testing the option dominates the Decode
+						for _, blk := range f.Blocks {
+							if ifi, ok := blk.Instrs[len(blk.Instrs)-1].(*ssa.If); ok && normGuard(guard{ifi.Cond, true}).Cond == ng.Cond && blk.Dominates(c.Block()) {
+								ok2 = true
+							}
+						}
+					}
+				}
+			})
+			if ok2 {
+				r.OK(rule, p.Name(f), "decode through the configured decoder", p.Pos(c.Pos()), "Decode on a decoder whose UseNumber switch was set under JsonUseNumber on every path")
+			} else {
+				r.Bad(rule, p.Name(f), "decode through the configured decoder", p.Pos(c.Pos()), "this Decode is reachable without the JsonUseNumber test having configured the decoder")
+			}
+		})
+	}
+	if nDec == 0 {
+		r.Bad(rule, p.Name(fn), "decode through the configured decoder", p.Pos(fn.Pos()), "no JSON decoding call found")
+	}
+}
+
+// ---- FWD.pure (C09): an option value is forwarded without depending on package state -------------------------------------
+
+func ruleFwdPure(p *Prog, r *Report, api, callee string) {
+	const rule = "FWD.pure"
+	fn, cal := p.Fn(api), p.Fn(callee)
+	if fn == nil || cal == nil {
+		r.Anchor(rule, api+"/"+callee)
+		return
+	}
+	va := variadicParam(fn)
+	n := 0
+	eachInstr(fn, func(b *ssa.BasicBlock, in ssa.Instruction) {
+		c, ok := in.(*ssa.Call)
+		if !ok || staticCallee(&c.Call) != cal {
+			return
+		}
+		for i, a := range c.Call.Args {
+			if !isBoolType(a.Type()) {
+				continue
+			}
+			infl := p.influence(fn, true, a)
+			if va != nil && !infl.params[va] {
+				continue
+			}
+			n++
+			cons := fmt.Sprintf("option argument #%d of %s", i, callee)
+			if len(infl.globals) == 0 {
+				r.OK(rule, api, cons, p.Pos(c.Pos()), "derived from the caller's option only")
+			} else {
+				r.Bad(rule, api, cons, p.Pos(c.Pos()), "the option value handed on depends on package state ("+strings.Join(infl.globalNames(), ",")+"): the callee's other uses of the option see a different value than the caller asked for")
+			}
+		}
+	})
+	if n == 0 {
+		r.Bad(rule, api, "option argument of "+callee, p.Pos(fn.Pos()), "the option is not passed to the walker")
+	}
+}
+
+// ---- WRAP.exactarg (C12): the paths of a key pair are used exactly as written -------------------------------------------
+
+func ruleNewMapArgs(p *Prog, r *Report) {
+	const rule = "WRAP.exactarg"
+	fn := p.Fn("mxj.Map.NewMap")
+	if fn == nil {
+		r.Anchor(rule, "mxj.Map.NewMap")
+		return
+	}
+	n := p.Name(fn)
+	// identity-derivation from an element of a strings.Split result of the key pair
+	var fromPair func(v ssa.Value, seen map[ssa.Value]bool) bool
+	fromPair = func(v ssa.Value, seen map[ssa.Value]bool) bool {
+		if seen[v] {
+			return true
+		}
+		seen[v] = true
+		switch x := v.(type) {
+		case *ssa.Phi:
+			for _, e := range x.Edges {
+				if !fromPair(e, seen) {
+					return false
+				}
+			}
+			return true
+		case *ssa.UnOp:
+			if ia, ok := x.X.(*ssa.IndexAddr); ok {
+				if c, ok := ia.X.(*ssa.Call); ok && isCallTo(&c.Call, "strings.Split") {
+					return true
+				}
+			}
+		}
+		return false
+	}
+	checked := 0
+	eachInstr(fn, func(b *ssa.BasicBlock, in ssa.Instruction) {
+		c, ok := in.(*ssa.Call)
+		if !ok {
+			return
+		}
+		if g := staticCallee(&c.Call); g != nil && p.Name(g) == "mxj.Map.ValuesForPath" {
+			checked++
+			if fromPair(c.Call.Args[1], map[ssa.Value]bool{}) {
+				r.OK(rule, n, "old path is the pair's old part as written", p.Pos(c.Pos()), "the argument of ValuesForPath is an element of strings.Split(pair, \":\") unmodified")
+			} else {
+				r.Bad(rule, n, "old path is the pair's old part as written", p.Pos(c.Pos()), "the old path is transformed before the lookup: keys that differ only by the transformation (e.g. surrounding blanks) are confused")
+			}
+		}
+		if isCallTo(&c.Call, "strings.Split") {
+			if sep, ok := constString(c.Call.Args[1]); ok && sep == "." {
+				checked++
+				if fromPair(c.Call.Args[0], map[ssa.Value]bool{}) {
+					r.OK(rule, n, "new path is the pair's new part as written", p.Pos(c.Pos()), "the new path is split from an unmodified element of the pair")
+				} else {
+					r.Bad(rule, n, "new path is the pair's new part as written", p.Pos(c.Pos()), "the new path is transformed before it is split into keys")
+				}
+			}
+		}
+	})
+	if checked < 2 {
+		r.Bad(rule, n, "pair parts located", p.Pos(fn.Pos()), "the lookup of the old path or the split of the new path was not found")
+	}
+}
+
+// ---- IO.retry (C13): a bounded retry budget for empty reads is restored whenever a byte arrives ---------------------------
+
+func ruleIORetry(p *Prog, r *Report, fns []*ssa.Function) {
+	const rule = "IO.retry"
+	for _, rs := range p.readSites(fns) {
+		if p.isDelegation(rs) || rs.n == nil {
+			continue
+		}
+		fn := rs.fn
+		in := rs.call.(ssa.Instruction)
+		hdr := innermostLoopHeader(in.Block())
+		if hdr == nil {
+			continue
+		}
+		body := naturalLoop(hdr)
+		// counters: integer phis of the loop header that are incremented inside the loop
+		for _, hin := range hdr.Instrs {
+			ph, ok := hin.(*ssa.Phi)
+			if !ok {
+				break
+			}
+			if !isIntType(ph.Type()) {
+				continue
+			}
+			isCounter := false
+			for i, e := range ph.Edges {
+				if body[hdr.Preds[i]] {
+					if bo, ok := e.(*ssa.BinOp); ok && bo.Op == token.ADD && phiChainReaches(bo.X, ph) {
+						isCounter = true
+					}
+					if p2, ok := e.(*ssa.Phi); ok {
+						for _, e2 := range p2.Edges {
+							if bo, ok := e2.(*ssa.BinOp); ok && bo.Op == token.ADD && phiChainReaches(bo.X, ph) {
+								isCounter = true
+							}
+						}
+					}
+				}
+			}
+			if !isCounter {
+				continue
+			}
+			// is it a retry budget? compared against a bound on the n == 0 path
+			budget := false
+			if refs := ph.Referrers(); refs != nil {
+				for _, ref := range *refs {
+					if bo, ok := ref.(*ssa.BinOp); ok && !nPositiveGuard(rs.n, bo.Block()) {
+						for _, r2 := range *bo.Referrers() {
+							if b2, ok := r2.(*ssa.BinOp); ok && (b2.Op == token.GEQ || b2.Op == token.GTR || b2.Op == token.LSS || b2.Op == token.LEQ) {
+								budget = true
+							}
+						}
+					}
+				}
+			}
+			// for-loop form `for i := 0; i < max; i++`: the loop is left after each byte, so the budget is per call
+			if !budget {
+				continue
+			}
+			// every back edge that comes from the n > 0 region must carry the constant 0
+			bad := ""
+			for i, e := range ph.Edges {
+				pred := hdr.Preds[i]
+				if !body[pred] {
+					continue
+				}
+				if !nPositiveGuard(rs.n, pred) {
+					continue
+				}
+				if k, ok := constInt(phiValueOnEdgeChain(e)); !ok || k != 0 {
+					bad = p.Pos(pred.Instrs[len(pred.Instrs)-1].Pos())
+				}
+			}
+			cons := "retry budget " + ph.Comment + " restored after progress"
+			if bad == "" {
+				r.OK(rule, p.Name(fn), cons, p.Pos(ph.Pos()), "every path that received a byte returns to the Read with the empty-read counter at zero")
+			} else {
+				r.Bad(rule, p.Name(fn), cons, bad, "a path on which a byte was received returns to the Read without resetting the empty-read counter: interspersed (0, nil) reads accumulate across bytes and end in a spurious io.ErrNoProgress")
+			}
+		}
+	}
+}
+
+// phiValueOnEdgeChain: if v is a phi all of whose edges are the same constant, that constant; otherwise v.
+func phiValueOnEdgeChain(v ssa.Value) ssa.Value {
+	ph, ok := v.(*ssa.Phi)
+	if !ok {
+		return v
+	}
+	var first ssa.Value
+	for _, e := range ph.Edges {
+		e = phiValueOnEdgeChain(e)
+		k, isK := constInt(e)
+		if !isK {
+			return v
+		}
+		if first == nil {
+			first = e
+		} else if k2, _ := constInt(first); k2 != k {
+			return v
+		}
+	}
+	if first != nil {
+		return first
+	}
+	return v
 }
